@@ -89,7 +89,7 @@ def gen_cases(ctx, max_o, max_s, n_rand, rand_o, rand_s):
         O = R.rand_otree(rng, rng.randint(1, rand_o), R.shape_leaves(S))
         cases.append({"S": S, "O": O, "costs": R.rand_costs(rng, plain=True)})
         if rng.random() < 0.3:   # same input object solved before under other costs (see recon.primed)
-            cases[-1]["prime"] = R.rand_costs(rng, plain=True, coherent_only=False)
+            cases[-1]["prime"] = R.rand_costs(rng, plain=True, coherent_only=False) if rng.random() < 0.6 else "topology"
     return cases
 
 
